@@ -279,6 +279,25 @@ def ddn : P String := do
   let v := v.failIf (!bpOK) "backProject not_expected_value"
   return v.render
 
+/-- `ddnrows S A parents | per feature: [pid aid]* for every row j, then getPartialSize per action`
+    DDNGraph::getIds(feature, j) is the inverse of getId(feature, parentId, actionId) -/
+def ddnrows : P String := do
+  let S ← P.nats; let A ← P.nats; let ps ← P.list parentSet; P.bar
+  let rows ← P.list P.nats; let psizes ← P.natss; let back ← P.natss; P.eof
+  let g : DDNGraph := { S := S, A := A, parents := ps }
+  let feats := List.range S.length
+  let v : Verdict := { tag := "ddnrows" }
+  let mrows := feats.map (fun i => (List.range (g.getSize i)).flatMap (fun j => let p := g.getIdsInv i j; [p.1, p.2]))
+  let v := v.diffIf (mrows != rows) s!"DDNGraph::getIds(feature,j) model={mrows} impl={rows}"
+  let mps := feats.map (fun i => (List.range (g.ps i).features.length).map (g.getPartialSize i))
+  let v := v.diffIf (mps != psizes) s!"DDNGraph::getPartialSize model={mps} impl={psizes}"
+  -- property: round trip on the implementation's own outputs (back[i][j] = getId(i, pid_j, aid_j) must be j), pid inside its block
+  let okRT := (feats.zip back).all (fun (_, b) => b == List.range b.length)
+  let v := v.failIf (!okRT) "DDNGraph::getIds(feature,j) not_inverse_of_getId"
+  let okIn := (rows.zip psizes).all (fun (r, pz) => (List.range (r.length / 2)).all (fun j => decide (r.getD (2*j) 0 < pz.getD (r.getD (2*j+1) 0) 0)))
+  let v := v.failIf (!okIn) "DDNGraph::getIds(feature,j) parent_index_outside_block"
+  return v.render
+
 /-- `eq <component> <kind> exact|close | a | b` : two implementations that must coincide (flat vs single-factor) -/
 def eqv : P String := do
   let comp ← P.tok; let kind ← P.tok; let mode ← P.tok; P.bar
@@ -310,6 +329,7 @@ def handle (toks : List String) : Option String :=
   | "fmfm" :: rest => P.run fmfm rest
   | "fmscale" :: rest => P.run fmscale rest
   | "ddn" :: rest => P.run ddn rest
+  | "ddnrows" :: rest => P.run ddnrows rest
   | "eq" :: rest => P.run eqv rest
   | "probe" :: rest => P.run probe rest
   | _ => none
